@@ -46,7 +46,7 @@ func runOverlap(w *world, c *Overlap, res *result) {
 		} else {
 			k := id()
 			w.opMeter(k, -1, -1, i%2 == 0, 0)
-			if x := w.opInst(id(), k, root.Intn(8), nil, false, 0); x != nil {
+			if x := w.opInst(id(), k, root.Intn(8), nil, false, 0, nil, 0); x != nil {
 				ins = append(ins, x)
 			}
 		}
